@@ -122,11 +122,22 @@ class ScalarField:
         field_space_expr: Expr = field_space_sympy
         if self.coordinate_system.coord_system_type != coordinate_system.coord_system_type:
             # This is a reverse transformation, if compared with Vector._extended_express()
-            new_scalars = list(
-                coordinate_system.transformation_to_system(
-                self.coordinate_system.coord_system_type))
-            for i, scalar in enumerate(self.coordinate_system.coord_system.base_scalars()):
-                field_space_expr = field_space_expr.subs(scalar, new_scalars[i])
+            # The kind of coordinates is changed within one frame: the frame of the new system if
+            # the field is Cartesian (it is brought there first), the own frame otherwise (and
+            # express() below brings it to the new frame).
+            if self.coordinate_system.coord_system_type == CoordinateSystem.System.CARTESIAN:
+                frame = coordinate_system
+                field_space_expr = express(field_space_expr,
+                    frame.coord_system,
+                    None,
+                    variables=True)
+            else:
+                frame = CoordinateSystem(coordinate_system.coord_system_type,
+                    self.coordinate_system.coord_system)
+            new_scalars = frame.transformation_to_system(self.coordinate_system.coord_system_type)
+            field_space_expr = field_space_expr.subs(dict(
+                zip(frame.coord_system.base_scalars(), new_scalars)),
+                simultaneous=True)
         # We do not want to maintain own field transformation functions, so
         # we convert our field to SymPy format, transform it and convert back to ScalarField.
         transformed_expr = express(field_space_expr,
